@@ -170,6 +170,56 @@ func TestC12(t *testing.T) {
 					return false
 				}})
 			}
+			// (5a') the server labels its key share with the GREASE group of the client's own GREASE
+			// key share.  A GREASE value is on the wire, but it is no offer: a server that "selects"
+			// it must be refused (RFC 8701, Section 3.1), and ConnectionState never reports one
+			{
+				var gg uint16
+				add(advCase{name: "grease_group_selected", max: tls.VersionTLS13,
+					scfg: func(c *tls.Config) {
+						c.GetConfigForClient = func(chi *tls.ClientHelloInfo) (*tls.Config, error) {
+							for _, g := range chi.SupportedCurves {
+								if wire.IsGREASE(uint16(g)) {
+									gg = uint16(g)
+									break
+								}
+							}
+							return nil, nil
+						}
+					},
+					plan: func() *tls.VerifPlan {
+						return &tls.VerifPlan{RewriteOut: rewriteServerHello(func(sh *wire.ServerHello) bool {
+							e := sh.Ext(wire.ExtKeyShare)
+							if gg == 0 || e == nil || len(e.Data) < 4 {
+								return false
+							}
+							d := append([]byte(nil), e.Data...)
+							d[0], d[1] = byte(gg>>8), byte(gg)
+							sh.SetExt(wire.ExtKeyShare, d)
+							return true
+						})}
+					},
+					value: func(cs tls.ConnectionState) string {
+						if c, ok := stateCurve(cs); ok && wire.IsGREASE(c) {
+							return fmt.Sprintf("GREASE group %#04x", c)
+						}
+						return ""
+					},
+					void: func(ch *wire.ClientHello) bool {
+						share, listed := false, false
+						for _, ks := range ch.KeyShares {
+							if wire.IsGREASE(ks.Group) {
+								share = true
+							}
+						}
+						for _, g := range ch.Groups {
+							if wire.IsGREASE(g) {
+								listed = true
+							}
+						}
+						return !share || !listed // the server of this case picks the GREASE value up from supported_groups and needs a GREASE share to relabel its own to
+					}})
+			}
 			// (5b) the server really switches to a classical group the hello does not list, through a
 			// HelloRetryRequest, and finishes the handshake on it
 			if g, ok := pickNot(rg, []uint16{0x0019, 0x0018, 0x0017, 0x001d}, listed); ok {
@@ -378,6 +428,9 @@ func TestC12(t *testing.T) {
 		scfg := peer.ServerConfig()
 		scfg.MaxVersion = j.c.max
 		scfg.NextProtos = []string{"h2", "http/1.1", "h3"}
+		if j.c.scfg != nil {
+			j.c.scfg(scfg)
+		}
 		tg := j.t
 		tg.Edit = j.c.edit
 		var delivered int
